@@ -235,6 +235,10 @@ impl Font {
         } else {
             Default::default()
         };
+        // The `public.objectLibs` key is managed by norad: loading fontinfo.plist
+        // moves the entries onto the global guidelines. Without a (format 3)
+        // fontinfo.plist there are no objects the entries could belong to.
+        lib.remove(PUBLIC_OBJECT_LIBS_KEY);
 
         let groups_path = path.join(GROUPS_FILE);
         let groups = if request.groups && groups_path.exists() {
